@@ -14,9 +14,9 @@ const clientPkg = an.PkgClient
 
 func init() {
 	register(&Rule{
-		ID: "C28",
+		ID:      "C28",
 		Explain: "Decides the RPC client's subscriber-channel safety for every interleaving of incoming records with Stop/Close as lock-discipline facts: for each stream handler type (monitor, event stream, query) every send on a subscriber channel and the close of it happen while the handler's own mutex is held, the send is behind closed==false read in that critical section, the close is behind !closed with closed=true stored in the same section (exactly once, never a send after close); Cleanup is invoked only by the two deregistration functions, each only for entries it removed from the dispatch table under the dispatch lock; the handler's flags are only accessed under its mutex; and the record path from the connection (listen → respondSeq → Handle) contains no undischarged panic obligation.",
-		Run: runC28,
+		Run:     runC28,
 		Mutants: []Mutant{
 			{Name: "monitor-send-unlocked", File: "client/rpc_client.go", Func: "func (mh *monitorHandler) Handle(", Old: "\tmh.l.Lock()\n\tdefer mh.l.Unlock()\n\tif mh.closed {\n\t\treturn\n\t}\n", New: "\tif mh.closed {\n\t\treturn\n\t}\n", Expect: "R1"},
 			{Name: "stream-send-ignores-closed", File: "client/rpc_client.go", Func: "func (sh *streamHandler) Handle(", Old: "\tif sh.closed {\n\t\treturn\n\t}\n", New: "", Expect: "R1"},
